@@ -139,6 +139,8 @@ class LibMixin:
                 return L(f"enum.{attr}")
             if attr == "auto":
                 return F("enum.auto")
+            if attr in ("unique", "verify"):
+                return F("identity")  # class decorators that check the members and return the class
         elif n == "struct":
             if attr == "error":
                 return L("struct.error")
@@ -619,6 +621,8 @@ class LibMixin:
             return v.value
         if isinstance(v, InstV) and "_base_value_" in v.attrs:
             return v.attrs["_base_value_"]
+        if isinstance(v, InstV) and isinstance(v.cls, ClassV) and v.cls.flags.get("namedtuple"):
+            return tuple(self.to_native(v.attrs[k], node) for k in v.cls.flags["namedtuple"])
         if isinstance(v, DictV) and not v.may and all(isinstance(k, (str, int, bool)) or k is None for k in v.d):
             return {k: self.to_native(x, node) for k, x in v.d.items()}
         if isinstance(v, tuple):
@@ -1033,6 +1037,11 @@ class LibMixin:
     def lib_contextlib_closing(self, a, kw, run, node):
         return CtxMgrV("closing", a[0])
 
+    def lib_contextlib_suppress(self, a, kw, run, node):
+        m = CtxMgrV("suppress", None)
+        m.inner = tuple(a)  # the exception types that end the block silently
+        return m
+
     def lib_contextlib_nullcontext(self, a, kw, run, node):
         return CtxMgrV("null", a[0] if a else None)
 
@@ -1173,6 +1182,18 @@ class LibMixin:
                 return Sym(("format", ("k", o), tuple(kterm(x) for x in rest), tuple((k, kterm(v)) for k, v in sorted(kw.items()))), "str")
         a2 = [self.to_native(x, node) for x in rest]
         k2 = {k: self.to_native(v, node) for k, v in kw.items()}
+
+        def native_deep(x):
+            if isinstance(x, (Sym, Obj)):
+                return False
+            if isinstance(x, (tuple, list, frozenset)):
+                return all(native_deep(y) for y in x)
+            if isinstance(x, dict):
+                return all(native_deep(y) for y in x.values())
+            return True
+        if not all(native_deep(x) for x in a2 + list(k2.values())):
+            # a container that holds a symbol must never reach a native method (its TypeError would be an artefact of the analysis)
+            return self.sym_method(o, name, [tuple(x) if isinstance(x, list) else x for x in a2], k2, run, node)
         try:
             r = getattr(o, name)(*a2, **k2)
         except tuple(PY_EXC) as e:
@@ -1416,6 +1437,8 @@ class LibMixin:
     def ctx_enter(self, m, run, node):
         if isinstance(m, StreamV):
             return m
+        if isinstance(m, CtxMgrV) and m.kind == "suppress":
+            return None
         if isinstance(m, CtxMgrV):
             return m.inner
         if isinstance(m, InstV):
